@@ -995,6 +995,14 @@ package vanguard
 //@   requires headers != nil && op != nil && op.request != nil && op.request.URL != nil
 //@   ensures[C02] err == nil ==> !hdrHas(headers, "Content-Type") && !hdrHas(headers, "Accept-Encoding") && !hdrHas(headers, "Connect-Protocol-Version") && !hdrHas(headers, "Connect-Timeout-Ms")
 //@   modifies mapobj(headers), op.queryVars, #LIB0
+// C01 (REST backends, same remark): the query string is accumulated - every element of a repeated
+// field and every singular field adds one value; nothing already written is overwritten or removed.
+//@ func httpEncodePathValues$1
+//@   opt implicit=assume
+//@   track sets ?= (net/url.Values).Set
+//@   track dels ?= (net/url.Values).Del
+//@   ensures[C01] sets == 0 && dels == 0
+
 // C01 (the part of REST binding a contract can reach; C07 itself is not applicable): every query
 // parameter of the request is visited - the loop over them ends by exhaustion or by returning an
 // error, never by leaving the remaining parameters unread. The reflection calls are unmodelled
